@@ -630,6 +630,22 @@ fn zero_snap(kind: &str, len: usize, extra: usize, seed: u64) -> Option<(Vec<u8>
             x.zeroize();
             Some((before, raw(&x)))
         }
+        "xs" | "xb" => {
+            // a read that stops inside a block, then leaving that block: by a seek (xs) or by reading exactly to its end (xb)
+            let mut x = h.finalize_xof();
+            let mut buf = vec![0u8; extra];
+            x.fill(&mut buf);
+            if kind == "xs" {
+                x.set_position(0);
+            } else {
+                let rest = (64 - extra % 64) % 64;
+                let mut b2 = vec![0u8; rest];
+                x.fill(&mut b2);
+            }
+            let before = raw(&x);
+            x.zeroize();
+            Some((before, raw(&x)))
+        }
         "hash" => {
             let mut d = h.finalize();
             let before = raw(&d);
